@@ -2640,3 +2640,83 @@ func fieldLoadBase(v ssa.Value) ssa.Value {
 	}
 	return fa.X
 }
+
+// aliasRule runs a rule function of another property on a scratch result and records the obligations of one of its rules under
+// a rule id of this property (same constructs, statuses and details). Only for rules without known findings.
+func aliasRule(c *Ctx, r *Result, srcProp string, run func(*Ctx, *Result), fromRule, toRule string) {
+	r2 := NewResult(srcProp)
+	run(c, r2)
+	n := 0
+	for _, o := range r2.Obls {
+		if o.Rule == fromRule {
+			r.Add(toRule, o.Construct, o.Pos, o.Status, o.Detail)
+			n++
+		}
+	}
+	for _, e := range r2.Errors {
+		if strings.Contains(e, fromRule) {
+			r.Errorf("%s (shared as %s)", e, toRule)
+		}
+	}
+	if n == 0 {
+		r.Shortfall(c, toRule, toRule+": the shared rule "+fromRule+" produced no obligation")
+	}
+}
+
+func init() {
+	reg := registry["C12"]
+	reg.Meta.Rules["C12.13"] = "a variable-length datatype is written so that it is recognised: " + registry["C11"].Meta.Rules["C11.2"] + " (shared with C11.2: the string/sequence flag of class 9 lives in the class bit field)"
+	reg.Rules = append(reg.Rules, func(c *Ctx, r *Result) { aliasRule(c, r, "C11", c11datatypeWord, "C11.2", "C12.13") })
+
+	reg.Meta.Rules["C12.14"] = "a variable-length type is registered with the base type it is named for: in the datatype registry the handler of VLen<T> carries the constant <T> (VLenString: 0), so that the stored datatype announces elements of the size the heap objects hold (VLenUint64 registered with Uint32 announces 4-byte elements over 8-byte data)"
+	reg.Rules = append(reg.Rules, func(c *Ctx, r *Result) {
+		entries := c.registryEntries(r)
+		pkg := c.PkgByID["hdf5"]
+		n := 0
+		for _, name := range sortedKeys(entries) {
+			e := entries[name]
+			if !strings.HasPrefix(name, "VLen") || e.Handler != "hdf5.vlenTypeHandler" || len(e.Fields) == 0 {
+				continue
+			}
+			n++
+			want := "0"
+			if base := strings.TrimPrefix(name, "VLen"); base != "String" && pkg != nil {
+				if k, ok := pkg.Types.Scope().Lookup(base).(*types.Const); ok {
+					want = k.Val().ExactString()
+				} else {
+					r.Undec("C12.14", "hdf5.datatypeRegistry#"+name+"#base-type", c.Pos(e.Pos), "no constant named "+base)
+					continue
+				}
+			}
+			r.Check(e.Fields[0] == want, "C12.14", "hdf5.datatypeRegistry#"+name+"#base-type", c.Pos(e.Pos), name+" is registered with base type value "+e.Fields[0]+"; the constant "+strings.TrimPrefix(name, "VLen")+" is "+want)
+		}
+		if n < 5 {
+			r.Shortfall(c, "C12.14", fmt.Sprintf("C12.14: only %d variable-length entries in the registry", n))
+		}
+	})
+
+	reg.Meta.Rules["C12.15"] = "a heap collection has a size the format allows: every value stored into the heap writer's minimum collection size is a constant multiple of 8 and at least 4096 (objects are 8-byte aligned and the free-space record fills the rest: a collection of 4069 bytes ends in 5 bytes that belong to nothing)"
+	reg.Rules = append(reg.Rules, func(c *Ctx, r *Result) {
+		n := 0
+		for _, fn := range c.LibFuncs() {
+			if shortPkg(fnPkgPath(fn)) != "hdf5" {
+				continue
+			}
+			for _, fs := range c.DirectFieldStores(fn) {
+				if fs.Fn != fn || fs.Key != "hdf5.globalHeapWriter.minCollectionSize" || fs.Val == nil {
+					continue
+				}
+				n++
+				v, ok := c.constEval(fs.Val)
+				if !ok {
+					r.Undec("C12.15", c.Name(fn)+"#minimum-collection-size", c.InstrPos(fs.In), "not a constant")
+					continue
+				}
+				r.Check(v%8 == 0 && v >= 4096, "C12.15", c.Name(fn)+"#minimum-collection-size", c.InstrPos(fs.In), fmt.Sprintf("minimum collection size %d", v))
+			}
+		}
+		if n == 0 {
+			r.Shortfall(c, "C12.15", "C12.15: no store to globalHeapWriter.minCollectionSize found")
+		}
+	})
+}
